@@ -53,7 +53,7 @@ pub fn property(id: &str) -> Option<PropertyRun> {
         },
         "C16" => PropertyRun {
             id: id.into(),
-            parts: vec![Box::new(Campaign(c16::C16)), Box::new(FuzzPart { target: "pipeline", runs_thorough: 1_500_000 })],
+            parts: vec![Box::new(Campaign(c16::C16)), Box::new(FuzzPart { target: "pipeline", runs_thorough: 25_000 })],
             assumptions: vec!["in-process stages run on 512 MB stacks under catch_unwind; stack exhaustion can only be observed through the real binary (sampled), nesting is capped at 60 per mutation in the campaign".into(), "a hang is a run of the real binary that exceeds 60 s twice on an input of at most 6 KB".into()],
         },
         "C17" => PropertyRun {
@@ -106,12 +106,12 @@ pub fn property(id: &str) -> Option<PropertyRun> {
         },
         "C14" => PropertyRun {
             id: id.into(),
-            parts: vec![Box::new(Campaign(roundtrip::C14)), Box::new(FuzzPart { target: "roundtrip_asp", runs_thorough: 3_000_000 })],
+            parts: vec![Box::new(Campaign(roundtrip::C14)), Box::new(FuzzPart { target: "roundtrip_asp", runs_thorough: 400_000 })],
             assumptions: vec!["input text comes from the checker's own printer; trees outside the image of the parser are never required to round-trip".into()],
         },
         "C15" => PropertyRun {
             id: id.into(),
-            parts: vec![Box::new(Campaign(roundtrip::C15)), Box::new(Campaign(roundtrip::C15Outputs)), Box::new(FuzzPart { target: "roundtrip_fol", runs_thorough: 3_000_000 })],
+            parts: vec![Box::new(Campaign(roundtrip::C15)), Box::new(Campaign(roundtrip::C15Outputs)), Box::new(FuzzPart { target: "roundtrip_fol", runs_thorough: 150_000 })],
             assumptions: vec!["input text comes from the checker's own printer; trees outside the image of the parser are never required to round-trip".into()],
         },
         "C18" => PropertyRun {
